@@ -252,7 +252,22 @@ func c15GenBytes(r *Rng, n int) []byte {
 
 func c15Gen(r *Rng, tier string, emit func(Case)) {
 	thorough := tier == "thorough"
-	E := func(nt bool, op string, tags ...string) { emit(Case{Op: op, Tags: tags, NonTrivial: nt}) }
+	// Cases inside the property's domain (judged by the oracle) are emitted before the correspondence-only
+	// ones: the runner keeps the first 20 failures of either kind, and a run of mere model/implementation
+	// differences outside the domain must not use up the slots before an oracle failure is reached.
+	var outside []Case
+	E := func(nt bool, op string, tags ...string) {
+		if nt {
+			emit(Case{Op: op, Tags: tags, NonTrivial: nt})
+		} else {
+			outside = append(outside, Case{Op: op, Tags: tags})
+		}
+	}
+	defer func() {
+		for _, c := range outside {
+			emit(c)
+		}
+	}()
 	lenTag := func(n int) string {
 		switch {
 		case n == 0:
@@ -263,6 +278,17 @@ func c15Gen(r *Rng, tier string, emit func(Case)) {
 			return "len<16384"
 		}
 		return "len>=16384"
+	}
+	// --- length sweeps (deterministic fill, digests): every length in the thorough tier
+	for n := 0; n <= 20000; n++ {
+		near := n <= 400 || (n >= 16370 && n <= 16400) || n >= 19990
+		if thorough || near || n%53 == r.Intn(53) {
+			t := c15Texts[n%len(c15Texts)]
+			E(true, fmt.Sprintf("meta.textfill %s %d %d %d", t.name, n, r.Intn(256), r.Intn(256)), "textfill", lenTag(n))
+			if n >= 1 {
+				E(true, fmt.Sprintf("meta.seqfill %d %d %d", n, r.Intn(256), r.Intn(256)), "seqfill", lenTag(n))
+			}
+		}
 	}
 	// --- texts: the listed lengths for every kind, random contents
 	for _, t := range c15Texts {
@@ -288,16 +314,13 @@ func c15Gen(r *Rng, tier string, emit func(Case)) {
 		E(true, "meta.seqdata "+hx(c15GenBytes(r, n)), "seqdata", lenTag(n))
 	}
 	E(false, "meta.seqdata -", "seqdata-empty")
-	// --- length sweeps (deterministic fill, digests): every length in the thorough tier
-	for n := 0; n <= 20000; n++ {
-		near := n <= 400 || (n >= 16370 && n <= 16400) || n >= 19990
-		if thorough || near || n%53 == r.Intn(53) {
-			t := c15Texts[n%len(c15Texts)]
-			E(true, fmt.Sprintf("meta.textfill %s %d %d %d", t.name, n, r.Intn(256), r.Intn(256)), "textfill", lenTag(n))
-			if n >= 1 {
-				E(true, fmt.Sprintf("meta.seqfill %d %d %d", n, r.Intn(256), r.Intn(256)), "seqfill", lenTag(n))
-			}
+	// beyond the property's 20 000: the next sizes of the length field (3 and 4 bytes) and the 16-bit boundary
+	for _, n := range []int{65535, 65536, 65537, 2097151, 2097152, 2097153} {
+		if n > 70000 && !thorough && n != 2097152 {
+			continue
 		}
+		E(true, fmt.Sprintf("meta.textfill %s %d %d %d", c15Texts[n%len(c15Texts)].name, n, r.Intn(256), 1+r.Intn(255)), "textfill", "len>20000")
+		E(true, fmt.Sprintf("meta.seqfill %d %d %d", n, r.Intn(256), 1+r.Intn(255)), "seqfill", "len>20000")
 	}
 	// --- small numeric domains, exhaustively
 	for c := 0; c < 256; c++ {
